@@ -10,6 +10,7 @@ def programs(tier, seed):
     P += families.fam_vectorization(seed, n=18 if tier == 'quick' else 120, max_per_type=3 if tier == 'quick' else 5)
     P += families.fam_equal_values()
     P += families.fam_edge_templates()
+    P += families.fam_innode_partial_and_multi_input()
     if tier == 'thorough':
         P += families.fam_vectorization(seed + 1, n=120, max_per_type=4)
         P += families.fam_hierarchy()
